@@ -9,3 +9,399 @@ Proof.
   constructor; unf; cbn; rewrite ?Z0 by discriminate; lia.
 Qed.
 
+
+Lemma inv_step s t s' : Inv s -> tstep s t = Some s' -> Inv s'.
+Proof.
+  intros I H. destruct t as [i| |j]; cbn [tstep] in H.
+  - destruct (nth_error (posters s) i) as [p|] eqn:E; [|discriminate]. eapply inv_poster; eassumption.
+  - eapply inv_consumer; eassumption.
+  - destruct (nth_error (pauses s) j) as [t|] eqn:E; [|discriminate]. eapply inv_pause; eassumption.
+Qed.
+
+Lemma inv_step_or_stay s t : Inv s -> Inv (step_or_stay s t).
+Proof.
+  intro I. unfold step_or_stay. destruct (tstep s t) eqn:E; [eapply inv_step; eassumption | exact I].
+Qed.
+
+Lemma inv_run s sched : Inv s -> Inv (run_sched s sched).
+Proof.
+  revert s. induction sched as [|t r IH]; intros s I; cbn [run_sched fold_left]; [exact I|].
+  apply IH. apply inv_step_or_stay. exact I.
+Qed.
+
+Lemma inv_reachable progs orc s : reachable progs orc s -> Inv s.
+Proof. intros [sched ->]. apply inv_run. apply inv_init. Qed.
+
+(* generic: a predicate preserved by every step holds in every reachable state *)
+Lemma reachable_ind (P : st -> Prop) progs orc :
+  P (init progs orc) -> (forall s t s', P s -> tstep s t = Some s' -> P s') ->
+  forall s, reachable progs orc s -> P s.
+Proof.
+  intros P0 Pstep s [sched ->]. generalize (init progs orc) P0. clear P0.
+  induction sched as [|t r IH]; intros s0 H0; cbn [run_sched fold_left]; [exact H0|].
+  apply IH. unfold step_or_stay. destruct (tstep s0 t) eqn:E; [eapply Pstep; eassumption | exact H0].
+Qed.
+
+(* ---------------------------------------------------------------- order / exactly once *)
+Definition rem (p : poster) : list pmsg :=
+  match ppc_ p with PReady => pprog p | _ => tl (pprog p) end.
+
+(* what every poster has pushed so far is what was delivered/popped of it followed by what
+   still sits in the queues; and its original programme is what it pushed followed by what
+   it has not started yet *)
+Definition Ord (progs : list (list pmsg)) (s : st) : Prop :=
+  length (posters s) = length progs /\
+  forall i p, nth_error (posters s) i = Some p ->
+    pdoneU p = projU (Z.of_nat i) (deliveredU s) ++ projU (Z.of_nat i) (uq s) /\
+    pdoneS p = projS (Z.of_nat i) (poppedS s) ++ projQ (Z.of_nat i) (sq s) /\
+    usersOf (nth i progs []) = pdoneU p ++ usersOf (rem p) /\
+    syssOf (nth i progs []) = pdoneS p ++ syssOf (rem p) /\
+    (ppc_ p = PUInc -> exists z r, pprog p = PUser z :: r) /\
+    (ppc_ p = PSLink \/ ppc_ p = PSInc -> exists m r, pprog p = PSys m :: r).
+
+Lemma projU_app i a b : projU i (a ++ b) = projU i a ++ projU i b.
+Proof. unfold projU. rewrite filter_app, map_app. reflexivity. Qed.
+Lemma projS_app i a b : projS i (a ++ b) = projS i a ++ projS i b.
+Proof. unfold projS. rewrite filter_app, map_app. reflexivity. Qed.
+Lemma projQ_app i a b : projQ i (a ++ b) = projQ i a ++ projQ i b.
+Proof. unfold projQ. rewrite filter_app, map_app. reflexivity. Qed.
+
+Lemma projQ_link i j q : projQ i (link_node j q) = projQ i q.
+Proof.
+  induction q as [|[[o m] l] r IH]; [reflexivity|]. cbn [link_node].
+  destruct (Z.eqb o j && negb l).
+  - unfold projQ. cbn [filter fst snd]. destruct (Z.eqb o i); reflexivity.
+  - unfold projQ in *. cbn [filter fst snd]. destruct (Z.eqb o i); cbn [map]; rewrite IH; reflexivity.
+Qed.
+
+Lemma projU_snoc i o z l : projU i (l ++ [(o, z)]) = projU i l ++ (if Z.eqb o i then [z] else []).
+Proof. rewrite projU_app. unfold projU at 2. cbn. destruct (Z.eqb o i); reflexivity. Qed.
+Lemma projS_snoc i o m l : projS i (l ++ [(o, m)]) = projS i l ++ (if Z.eqb o i then [m] else []).
+Proof. rewrite projS_app. unfold projS at 2. cbn. destruct (Z.eqb o i); reflexivity. Qed.
+Lemma projQ_snoc i o m b l : projQ i (l ++ [(o, m, b)]) = projQ i l ++ (if Z.eqb o i then [m] else []).
+Proof. rewrite projQ_app. unfold projQ at 2. cbn. destruct (Z.eqb o i); reflexivity. Qed.
+Lemma projU_cons i o z l : projU i ((o, z) :: l) = (if Z.eqb o i then [z] else []) ++ projU i l.
+Proof. unfold projU. cbn. destruct (Z.eqb o i); reflexivity. Qed.
+Lemma projQ_cons i o m b l : projQ i ((o, m, b) :: l) = (if Z.eqb o i then [m] else []) ++ projQ i l.
+Proof. unfold projQ. cbn. destruct (Z.eqb o i); reflexivity. Qed.
+
+Ltac pj :=
+  cbn [posters uq sq userN sysN running paused suspended dispq cpc_ cs cu cp pauses deliveredU
+       poppedS invokedS oracle ppc_ pprog pdoneU pdoneS set_posters set_pauses set_c] in *.
+
+Lemma length_upd {A} (l : list A) i x : length (upd l i x) = length l.
+Proof. revert i. induction l as [|a r IH]; intros [|i]; simpl; auto. Qed.
+
+Lemma nat_eqb_Z i j : Z.eqb (Z.of_nat i) (Z.of_nat j) = Nat.eqb i j.
+Proof. destruct (Nat.eqb_spec i j); [subst; apply Z.eqb_refl | apply Z.eqb_neq; lia]. Qed.
+
+Lemma ord_init progs orc : Ord progs (init progs orc).
+Proof.
+  split; [cbn; apply map_length|]. intros i p H. cbn in H.
+  rewrite nth_error_map in H. destruct (nth_error progs i) as [pr|] eqn:E; [|discriminate].
+  inv H. cbn. rewrite (nth_error_nth _ _ _ E).
+  repeat split; try reflexivity; try discriminate. intros [X|X]; discriminate.
+Qed.
+
+Ltac ord_other Hi N :=
+  rewrite nth_error_upd_other in Hi by exact N.
+
+Ltac splitk i k Hn Hk :=
+  destruct (Nat.eq_dec i k) as [?E|?N];
+  [subst k; rewrite (nth_error_upd_same _ _ _ _ Hn) in Hk; injection Hk as <-
+  | rewrite nth_error_upd_other in Hk by assumption].
+
+Lemma ord_poster progs s i p s' :
+  Ord progs s -> nth_error (posters s) i = Some p -> poster_step s i p = Some s' -> Ord progs s'.
+Proof.
+  intros [L O] Hn Hs. unfold poster_step in Hs.
+  destruct (O _ _ Hn) as [OU [OS [PU [PS [HU HS]]]]].
+  destruct (ppc_ p) eqn:Epc.
+  - destruct (pprog p) as [|[z|m] r] eqn:Epr; [discriminate| |]; inv Hs;
+      (split; [pj; rewrite length_upd; exact L|]); intros k q Hk; pj;
+      splitk i k Hn Hk.
+    + pj. rewrite projU_snoc, Z.eqb_refl. unfold rem in *. pj. rewrite Epc, Epr in *. cbn [tl usersOf syssOf] in *.
+      rewrite OU, <- !app_assoc. repeat split; try discriminate; eauto.
+      * rewrite PU, OU, <- !app_assoc. reflexivity.
+      * intros [X|X]; discriminate.
+    + rewrite projU_snoc, nat_eqb_Z. destruct (Nat.eqb_spec i k); [contradiction|].
+      rewrite app_nil_r. exact (O _ _ Hk).
+    + pj. rewrite projQ_snoc, Z.eqb_refl. unfold rem in *. pj. rewrite Epc, Epr in *. cbn [tl usersOf syssOf] in *.
+      rewrite OS, <- !app_assoc. repeat split; try discriminate; eauto.
+      rewrite PS, OS, <- !app_assoc. reflexivity.
+    + rewrite projQ_snoc, nat_eqb_Z. destruct (Nat.eqb_spec i k); [contradiction|].
+      rewrite app_nil_r. exact (O _ _ Hk).
+  - (* PUInc *)
+    inv Hs. split; [pj; rewrite length_upd; exact L|]. intros k q Hk; pj.
+    splitk i k Hn Hk; [|exact (O _ _ Hk)].
+    pj. unfold rem in *. pj. rewrite Epc in *. repeat split; auto; try discriminate; try (intros [X|X]; discriminate).
+  - (* PSLink *)
+    inv Hs. split; [pj; rewrite length_upd; exact L|]. intros k q Hk; pj. rewrite projQ_link.
+    splitk i k Hn Hk; [|exact (O _ _ Hk)].
+    pj. unfold rem in *. pj. rewrite Epc in *. repeat split; auto; try discriminate.
+  - (* PSInc *)
+    inv Hs. split; [pj; rewrite length_upd; exact L|]. intros k q Hk; pj.
+    splitk i k Hn Hk; [|exact (O _ _ Hk)].
+    pj. unfold rem in *. pj. rewrite Epc in *. repeat split; auto; try discriminate; try (intros [X|X]; discriminate).
+  - (* PS1 *)
+    inv Hs. split; [pj; rewrite length_upd; exact L|]. intros k q Hk; pj.
+    splitk i k Hn Hk; [|exact (O _ _ Hk)].
+    pj. unfold rem in *. pj. rewrite Epc in *.
+    destruct (paused s); pj; repeat split; auto; try discriminate; try (intros [X|X]; discriminate).
+  - (* PS2 *)
+    destruct (running s); inv Hs; (split; [pj; rewrite length_upd; exact L|]); intros k q Hk; pj;
+      (splitk i k Hn Hk; [|exact (O _ _ Hk)]);
+      pj; unfold rem in *; pj; rewrite Epc in *; repeat split; auto; try discriminate; try (intros [X|X]; discriminate).
+  - (* PS3 *)
+    inv Hs. split; [pj; rewrite length_upd; exact L|]. intros k q Hk; pj.
+    splitk i k Hn Hk; [|exact (O _ _ Hk)].
+    pj. unfold rem in *. pj. rewrite Epc in *. repeat split; auto; try discriminate; try (intros [X|X]; discriminate).
+Qed.
+
+Lemma ord_consumer progs s s' : Ord progs s -> consumer_step s = Some s' -> Ord progs s'.
+Proof.
+  intros [L O] Hs. unfold consumer_step in Hs.
+  destruct (cpc_ s) eqn:Epc.
+  - destruct (0 <? dispq s); inv Hs. split; pj; assumption.
+  - inv Hs. split; pj; assumption.
+  - destruct (paused s); inv Hs; split; pj; assumption.
+  - destruct (sq s) as [|[[o m] lk] r] eqn:Eq; [inv Hs; split; pj; [assumption | rewrite Eq; assumption]|].
+    destruct lk; inv Hs; [|split; pj; [assumption | rewrite Eq; assumption]].
+    split; [pj; assumption|]. intros k q Hk. pj. specialize (O _ _ Hk).
+    rewrite projQ_cons in O. rewrite projS_snoc, <- app_assoc. exact O.
+  - inv Hs. split; pj; assumption.
+  - destruct (uq s) as [|[o z] r] eqn:Eq; inv Hs; [split; pj; [assumption | rewrite Eq; assumption]|].
+    split; [pj; assumption|]. intros k q Hk. pj. specialize (O _ _ Hk).
+    rewrite projU_cons in O. rewrite projU_snoc, <- app_assoc. exact O.
+  - inv Hs. split; pj; assumption.
+  - inv Hs. split; pj; assumption.
+  - inv Hs. split; pj; assumption.
+  - inv Hs. split; pj; assumption.
+  - destruct ((0 <? cs s) || (negb (suspended s) && (0 <? cu s) && negb (cp s))); inv Hs; split; pj; assumption.
+  - inv Hs. split; pj; assumption.
+  - destruct (running s); inv Hs; split; pj; assumption.
+  - inv Hs. split; pj; assumption.
+Qed.
+
+Lemma ord_pause progs s j t s' : Ord progs s -> pause_step s j t = Some s' -> Ord progs s'.
+Proof.
+  intros [L O] Hs. unfold pause_step in Hs.
+  destruct t; try discriminate; try (inv Hs; split; pj; assumption).
+  destruct (running s); inv Hs; split; pj; assumption.
+Qed.
+
+Lemma ord_reachable progs orc s : reachable progs orc s -> Ord progs s.
+Proof.
+  apply reachable_ind; [apply ord_init|].
+  intros s0 t s' O H. destruct t as [i| |j]; cbn [tstep] in H.
+  - destruct (nth_error (posters s0) i) as [p|] eqn:E; [|discriminate]. eapply ord_poster; eassumption.
+  - eapply ord_consumer; eassumption.
+  - destruct (nth_error (pauses s0) j) as [t|] eqn:E; [|discriminate]. eapply ord_pause; eassumption.
+Qed.
+
+(* ---------------------------------------------------------------- the theorems *)
+Lemma prefix_app_r {A} (a b c : list A) : a ++ b = c -> prefix a c.
+Proof. intros <-. exists b. reflexivity. Qed.
+
+(* per-sender order, at most once: what has been delivered of poster i is, in order, a
+   prefix of what it was asked to post *)
+Lemma once_in_order progs orc s : reachable progs orc s ->
+  forall i, (i < length progs)%nat ->
+    prefix (projU (Z.of_nat i) (deliveredU s)) (usersOf (nth i progs [])) /\
+    prefix (projS (Z.of_nat i) (poppedS s)) (syssOf (nth i progs [])).
+Proof.
+  intros R i Hi. destruct (ord_reachable _ _ _ R) as [L O].
+  destruct (nth_error (posters s) i) as [p|] eqn:E;
+    [|apply nth_error_None in E; lia].
+  destruct (O _ _ E) as [OU [OS [PU [PS _]]]]. split.
+  - rewrite PU, OU, <- app_assoc. eexists. reflexivity.
+  - rewrite PS, OS, <- app_assoc. eexists. reflexivity.
+Qed.
+
+(* nothing is delivered that no poster posted: every owner tag is a poster index *)
+Definition okU (n : Z) (l : list (Z * Z)) : Prop := Forall (fun e => 0 <= fst e < n) l.
+Definition okS (n : Z) (l : list (Z * smsg)) : Prop := Forall (fun e => 0 <= fst e < n) l.
+Definition okQ (n : Z) (l : list (Z * smsg * bool)) : Prop := Forall (fun e => 0 <= fst (fst e) < n) l.
+
+Definition Own (n : Z) (s : st) : Prop :=
+  Z.of_nat (length (posters s)) = n /\ okU n (uq s) /\ okU n (deliveredU s) /\ okQ n (sq s) /\ okS n (poppedS s).
+
+Lemma okQ_link n i q : okQ n q -> okQ n (link_node i q).
+Proof.
+  induction 1 as [|[[o m] l] r H1 H2 IH]; cbn [link_node]; [constructor|].
+  destruct (Z.eqb o i && negb l); constructor; auto.
+Qed.
+
+Lemma own_step n s t s' : Own n s -> tstep s t = Some s' -> Own n s'.
+Proof.
+  intros [L [U [D [Q P]]]] H. destruct t as [i| |j]; cbn [tstep] in H.
+  - destruct (nth_error (posters s) i) as [p|] eqn:E; [|discriminate].
+    assert (Hi : (i < length (posters s))%nat) by (apply nth_error_Some; congruence).
+    unfold poster_step in H.
+    destruct (ppc_ p); [destruct (pprog p) as [|[z|m] r]; [discriminate| |]| | | | | |];
+      try (destruct (running s)); inv H; unfold Own; pj; rewrite length_upd;
+      repeat split; auto;
+      try (apply Forall_app; split; [assumption | constructor; [cbn; lia | constructor]]);
+      try (apply okQ_link; assumption).
+  - unfold consumer_step in H. destruct (cpc_ s).
+    + destruct (0 <? dispq s); inv H. repeat split; pj; assumption.
+    + inv H. repeat split; pj; assumption.
+    + destruct (paused s); inv H; repeat split; pj; assumption.
+    + destruct (sq s) as [|[[o m] lk] r] eqn:Eq; [inv H; repeat split; pj; try rewrite Eq; assumption|].
+      destruct lk; inv H; [|repeat split; pj; try rewrite Eq; assumption].
+      inversion Q as [|x y Q1 Q2]; subst. repeat split; pj; auto.
+      apply Forall_app. split; [exact P|]. constructor; [exact Q1 | constructor].
+    + inv H. repeat split; pj; assumption.
+    + destruct (uq s) as [|[o z] r] eqn:Eq; inv H; [repeat split; pj; try rewrite Eq; assumption|].
+      inversion U as [|x y U1 U2]; subst. repeat split; pj; auto.
+      apply Forall_app. split; [exact D|]. constructor; [exact U1 | constructor].
+    + inv H. repeat split; pj; assumption.
+    + inv H. repeat split; pj; assumption.
+    + inv H. repeat split; pj; assumption.
+    + inv H. repeat split; pj; assumption.
+    + destruct ((0 <? cs s) || (negb (suspended s) && (0 <? cu s) && negb (cp s))); inv H; repeat split; pj; assumption.
+    + inv H. repeat split; pj; assumption.
+    + destruct (running s); inv H; repeat split; pj; assumption.
+    + inv H. repeat split; pj; assumption.
+  - destruct (nth_error (pauses s) j) as [t|] eqn:E; [|discriminate]. unfold pause_step in H.
+    destruct t; try discriminate; try (inv H; repeat split; pj; assumption).
+    destruct (running s); inv H; repeat split; pj; assumption.
+Qed.
+
+Lemma own_reachable progs orc s : reachable progs orc s -> Own (Z.of_nat (length progs)) s.
+Proof.
+  apply reachable_ind.
+  - unfold Own. cbn. rewrite map_length. repeat split; constructor.
+  - intros. eapply own_step; eassumption.
+Qed.
+
+Lemma cnt_zero {A} (f : A -> bool) l :
+  (forall i a, nth_error l i = Some a -> f a = false) -> cnt f l = 0.
+Proof.
+  induction l as [|x r IH]; intro H; cbn [cnt]; [reflexivity|].
+  rewrite (H 0%nat x eq_refl). rewrite IH; [reflexivity|]. intros i a Hi. exact (H (S i) a Hi).
+Qed.
+
+Lemma quiescent_posters s : quiescent s ->
+  forall i p, nth_error (posters s) i = Some p -> ppc_ p = PReady /\ pprog p = [].
+Proof.
+  intros Q i p E. specialize (Q (TPoster i)). cbn [tstep] in Q. rewrite E in Q.
+  unfold poster_step in Q.
+  destruct (ppc_ p); [destruct (pprog p) as [|[z|m] r]; [auto|discriminate|discriminate]| | | | | |];
+    try discriminate. destruct (running s); discriminate.
+Qed.
+
+Lemma quiescent_pauses s : quiescent s ->
+  forall j t, nth_error (pauses s) j = Some t -> t = TDone.
+Proof.
+  intros Q j t E. specialize (Q (TPause j)). cbn [tstep] in Q. rewrite E in Q.
+  unfold pause_step in Q. destruct t; try discriminate; [|reflexivity].
+  destruct (running s); discriminate.
+Qed.
+
+Lemma quiescent_consumer s : quiescent s -> cpc_ s = CIdle /\ dispq s <= 0.
+Proof.
+  intro Q. specialize (Q TConsumer). cbn [tstep] in Q. unfold consumer_step in Q.
+  destruct (cpc_ s); try discriminate.
+  - destruct (Z.ltb_spec 0 (dispq s)); [discriminate|]. split; [reflexivity | lia].
+  - destruct (paused s); discriminate.
+  - destruct (sq s) as [|[[o m] [|]] r]; discriminate.
+  - destruct (uq s) as [|[o z] r]; discriminate.
+  - destruct ((0 <? cs s) || (negb (suspended s) && (0 <? cu s) && negb (cp s))); discriminate.
+  - destruct (running s); discriminate.
+Qed.
+
+Lemma len_zero_nil {A} (l : list A) : len l <= 0 -> l = [].
+Proof. destruct l; [reflexivity|]. unfold len. cbn [length]. lia. Qed.
+
+Lemma projU_nil i : projU i [] = [].
+Proof. reflexivity. Qed.
+
+(* never stalls: when no thread can take a step, nothing is left behind *)
+Lemma quiescent_drained progs orc s : reachable progs orc s -> quiescent s ->
+  sq s = [] /\ running s = false /\ paused s = false /\
+  (suspended s = false -> uq s = []) /\
+  forall i, (i < length progs)%nat ->
+    projS (Z.of_nat i) (poppedS s) = syssOf (nth i progs []) /\
+    (suspended s = false -> projU (Z.of_nat i) (deliveredU s) = usersOf (nth i progs [])).
+Proof.
+  intros R Q. pose proof (inv_reachable _ _ _ R) as [Iu Is Ip Ir Id K1 K2 K3 W].
+  destruct (ord_reachable _ _ _ R) as [L O].
+  pose proof (quiescent_posters _ Q) as QP. pose proof (quiescent_pauses _ Q) as QT.
+  destruct (quiescent_consumer _ Q) as [QC QD].
+  assert (ZP : forall c, c <> PReady -> nP s c = 0).
+  { intros c Hc. unfold nP. apply cnt_zero. intros i a E. destruct (QP _ _ E) as [-> _].
+    destruct c; try reflexivity. contradiction. }
+  assert (ZT : forall c, c <> TDone -> nT s c = 0).
+  { intros c Hc. unfold nT. apply cnt_zero. intros j a E. rewrite (QT _ _ E).
+    destruct c; try reflexivity. contradiction. }
+  unfold helped, work, inSched, nS3, active, in_tail, cat in *. rewrite QC in *.
+  rewrite !ZP in * by discriminate. rewrite !ZT in * by discriminate. cbn [cpc_eqb b2z] in *.
+  assert (Hr : running s = false) by (destruct (running s); cbn [b2z] in *; [lia | reflexivity]).
+  assert (Hp : paused s = false) by (destruct (paused s); cbn [b2z] in *; [lia | reflexivity]).
+  rewrite Hr, Hp in *. cbn [b2z] in *.
+  assert (Hsq : sq s = []).
+  { apply len_zero_nil. destruct (Z.ltb_spec 0 (sysN s)) as [G|G]; [|lia].
+    specialize (W (or_introl G)). lia. }
+  assert (Huq : suspended s = false -> uq s = []).
+  { intro Hs. apply len_zero_nil. destruct (Z.ltb_spec 0 (userN s)) as [G|G]; [|lia].
+    assert (X : 0 < sysN s \/ b2z (suspended s) = 0 /\ 0 < userN s) by (right; rewrite Hs; split; [reflexivity | exact G]).
+    specialize (W X). lia. }
+  repeat split; auto.
+  - destruct (nth_error (posters s) i) as [p|] eqn:E; [|apply nth_error_None in E; lia].
+    destruct (O _ _ E) as [OU [OS [PU [PS _]]]]. destruct (QP _ _ E) as [Epc Epr].
+    unfold rem in PS. rewrite Epc, Epr in PS. cbn [syssOf] in PS.
+    rewrite PS, OS, Hsq, app_nil_r. cbn. rewrite app_nil_r. reflexivity.
+  - intro Hs. destruct (nth_error (posters s) i) as [p|] eqn:E; [|apply nth_error_None in E; lia].
+    destruct (O _ _ E) as [OU [OS [PU [PS _]]]]. destruct (QP _ _ E) as [Epc Epr].
+    unfold rem in PU. rewrite Epc, Epr in PU. cbn [usersOf] in PU.
+    rewrite PU, OU, (Huq Hs), app_nil_r. cbn. rewrite app_nil_r. reflexivity.
+Qed.
+
+(* never two at a time: at most one activation is scheduled, queued or executing *)
+Lemma single_run progs orc s : reachable progs orc s ->
+  0 <= dispq s /\ dispq s + active s + nS3 s <= 1 /\
+  (running s = true <-> dispq s + active s + nS3 s = 1).
+Proof.
+  intro R. pose proof (inv_reachable _ _ _ R) as [Iu Is Ip Ir Id K1 K2 K3 W].
+  pose proof (b2z_range (running s)). repeat split; try lia.
+  - intro E. rewrite E in Ir. cbn in Ir. lia.
+  - intro E. destruct (running s); [reflexivity|]. cbn in Ir. lia.
+Qed.
+
+(* system messages first: a user message is only taken at R4, R4 is only entered from R3,
+   and R3 only from an R2 that found no reachable system message *)
+Definition visible_head (q : list (Z * smsg * bool)) : bool :=
+  match q with (_, _, true) :: _ => true | _ => false end.
+
+Ltac sf :=
+  repeat split; intros; try discriminate; try congruence;
+  try (exfalso; match goal with X : ?a <> ?a |- _ => apply X; reflexivity end).
+
+Lemma sys_first s s' : tstep s TConsumer = Some s' ->
+  (deliveredU s' <> deliveredU s -> cpc_ s = CR4) /\
+  (cpc_ s' = CR4 -> cpc_ s = CR3 /\ suspended s = false) /\
+  (cpc_ s' = CR3 -> cpc_ s = CR2 /\ visible_head (sq s) = false).
+Proof.
+  cbn [tstep]. unfold consumer_step. intro H.
+  destruct (cpc_ s) eqn:Epc.
+  - destruct (0 <? dispq s); inv H. pj. sf.
+  - inv H. pj. destruct (_ && _); sf.
+  - destruct (paused s); inv H; pj; sf.
+  - destruct (sq s) as [|[[o m] lk] r] eqn:Eq; [inv H; pj; sf|].
+    destruct lk; inv H; pj; sf.
+  - inv H. pj. destruct (suspended s) eqn:Es; sf.
+  - destruct (uq s) as [|[o z] r]; inv H; pj; sf.
+  - inv H. pj. sf.
+  - inv H. pj. sf.
+  - inv H. pj. sf.
+  - inv H. pj. sf.
+  - destruct ((0 <? cs s) || (negb (suspended s) && (0 <? cu s) && negb (cp s))); inv H; pj; sf.
+  - inv H. pj. destruct (paused s); sf.
+  - destruct (running s); inv H; pj; sf.
+  - inv H. pj. sf.
+Qed.
+
+(* no lost wake-up, as a state invariant: whenever there is work, somebody is bound to act *)
+Lemma no_lost_wakeup progs orc s : reachable progs orc s -> work s -> 0 < helped s + in_tail s.
+Proof. intros R. apply (i_wake _ (inv_reachable _ _ _ R)). Qed.
